@@ -46,11 +46,12 @@ class C02(PropBase):
                    "the twin must accept the stream in one delivery and reproduce the values sent, otherwise the case is a codec/lifecycle "
                    "matter (C01/C04/C08) and is discarded and counted",
                    "deep copies of a prepared session behave like the session"]
-    RUNS = {"quick": 1600, "thorough": 40000}
+    RUNS = {"quick": 1000, "thorough": 30000}
     STEPS = {"quick": 400, "thorough": 400}
     REQUIRED_REACH = ("cut_in_longform_length", "residue_across_3_calls", "empty_chunk_with_residue", "three_pdus_completed_with_residue",
                       "memoryview_input", "scribbled_after_call", "cut_in_tag_or_first_len", "pdu_boundary_inside_chunk",
-                      "sweep_single_cuts", "sweep_pair_cuts", "client_subject", "server_subject", "four_octet_outer_length")
+                      "sweep_single_cuts", "sweep_pair_cuts", "client_subject", "server_subject", "four_octet_outer_length",
+                      "sixty_plus_pdus_in_one_call", "two_unknown_result_codes_in_stream")
 
     # ------------------------------------------------------------------ generation of prepared session + stream
 
@@ -73,6 +74,10 @@ class C02(PropBase):
         own_enc = rng.random() < 0.3  # stream encoded by the independent encoder (a foreign, conforming peer)
         own_style = rng.choice([("outer4", None, None), ("outer4", None, None), ("ad", 4, None), ("long", 2, 1), ("all4", 4, 4)])
         npdu = rng.choice([1, 2, 2, 3, 3, 4, 5, 6, 8, 12])
+        if rng.random() < 0.04:
+            npdu = rng.choice([63, 64, 65, 70, 100, 130])  # many small messages completed by one receive() call
+            big, huge = 0.0, 0.0
+            g = Gen(rng, big=0.0, huge=0.0, customs=customs, rich=False)
         stream = b""
         if role == "s":
             helper = sansldap.LDAPClient()
@@ -171,19 +176,42 @@ class C02(PropBase):
             x["discard"] = "preparation failed: %r" % (e,)
             return st
         x["prepared"] = copy.deepcopy(S.real)
-        # twin: one delivery
+        units, rest, _flag = ber.frame_units(stream)
+        if rest != len(stream) or len(units) != len(init["expected"]):
+            x["discard"] = "stream does not frame into the expected PDUs"
+            return st
+        # twin: one delivery; and a third copy fed PDU by PDU (values snapshotted when returned)
+        tw_vals = u_vals = None
         try:
             tw = T.real.receive(stream)
-            x["twin"] = [norm(canon_msg(m)) for m in tw]
+            tw_vals = [norm(canon_msg(m)) for m in tw]
         except Exception as e:  # noqa: BLE001
-            x["discard"] = "twin refused the stream: %r" % (e,)
+            tw_err = "%s: %s" % (type(e).__name__, e)
+        try:
+            U = copy.deepcopy(x["prepared"])
+            u_vals = []
+            for a, b in units:
+                for m in U.receive(stream[a:b]):
+                    u_vals.append(norm(canon_msg(m)))
+        except Exception:  # noqa: BLE001
+            u_vals = None
+        exp = init["expected"]
+        if tw_vals is None and u_vals is None:
+            x["discard"] = "the session refuses this stream however it is delivered (codec / lifecycle matter)"
             return st
-        if x["twin"] != init["expected"]:
-            x["discard"] = "twin decoded different values than were sent (codec matter, C01/C04)"
-            return st
-        units, rest, _flag = ber.frame_units(stream)
-        if rest != len(stream) or len(units) != len(x["twin"]):
-            x["discard"] = "stream does not frame into the expected PDUs"
+        if tw_vals is None and u_vals == exp:
+            x["defer"] = ("single-delivery-differs", "delivering the %d PDUs one per call returns exactly the messages sent, delivering the "
+                          "same %d bytes in one call raises %s" % (len(units), len(stream), tw_err))
+        elif tw_vals is not None and tw_vals != exp and u_vals == exp:
+            i = next(i for i in range(max(len(tw_vals), len(exp))) if i >= len(tw_vals) or i >= len(exp) or tw_vals[i] != exp[i])
+            x["defer"] = ("single-delivery-differs", "delivering the %d PDUs one per call returns exactly the messages sent, a single "
+                          "delivery returns a different message #%d: %s instead of %s" % (
+                              len(units), i, _short(tw_vals[i]) if i < len(tw_vals) else "nothing", _short(exp[i]) if i < len(exp) else "nothing"))
+        elif tw_vals is not None and tw_vals != exp:
+            st.flags["codec_mismatch"] = 1  # every delivery decodes something else than was sent: C01/C04's matter, chunking still compared
+        x["twin"] = tw_vals if tw_vals is not None else u_vals
+        if x["twin"] is None or len(x["twin"]) != len(units):
+            x["discard"] = "reference delivery returned %s messages for %d PDUs" % (None if x["twin"] is None else len(x["twin"]), len(units))
             return st
         x["units"] = units
         x["kinds"] = [m["t"] for m in x["twin"]]
@@ -195,13 +223,18 @@ class C02(PropBase):
             st.hit("server_subject")
         if init.get("own_enc"):
             st.hit("four_octet_outer_length")
+        if len(units) >= 60:
+            st.hit("sixty_plus_pdus_in_one_call")
+        codes = {m["result"]["code"] for m in init["expected"] if "result" in m and m["result"]["code"] not in values_known()}
+        if len(codes) >= 2:
+            st.hit("two_unknown_result_codes_in_stream")
         return st
 
     # ------------------------------------------------------------------ policy
 
     def next_op(self, st, rng):
         x = st.x
-        if x["discard"]:
+        if x["discard"] or x.get("defer"):
             return None
         S = st.w.s["S"]
         avail = len(S.inbox)
@@ -336,6 +369,8 @@ class C02(PropBase):
         if x["discard"]:
             st.flags["discarded"] = 1
             return
+        if x.get("defer"):
+            raise Violation(P, x["defer"][0], x["defer"][1])
         w = st.w
         S, T = w.s["S"], w.s["T"]
         if S.inbox:
@@ -369,7 +404,9 @@ class C02(PropBase):
         role = st.w.init["role"]
         T = st.w.s["T"].real
         budget = 150000 if self.tier == "quick" else 1500000  # bytes re-parsed per stream, keeps huge streams affordable
-        limit = max(40, min(700 if self.tier == "quick" else 5000, budget // max(1, n)))
+        limit = max(40, min(300 if self.tier == "quick" else 5000, budget // max(1, n)))
+        if len(x["units"]) >= 30:
+            limit = min(limit, 60 if self.tier == "quick" else 600)  # parse cost is per message here, not per byte
         if n < 2:
             return
         offs = list(range(1, n))
@@ -385,7 +422,9 @@ class C02(PropBase):
         for k in offs:
             self._cut_run(st, [k], T, role)
             st.hit("sweep_single_cuts")
-        pairs = max(5, min(60 if self.tier == "quick" else 400, budget // max(1, 3 * n)))
+        pairs = max(5, min(30 if self.tier == "quick" else 400, budget // max(1, 3 * n)))
+        if len(x["units"]) >= 30:
+            pairs = min(pairs, 10 if self.tier == "quick" else 100)
         for _ in range(pairs):
             if n < 3:
                 break
@@ -422,6 +461,12 @@ class C02(PropBase):
 
     def simplify(self, head, body, fails):
         return body
+
+
+def values_known():
+    from ..values import KNOWN_CODES
+
+    return set(KNOWN_CODES) | {5, 6, 14, 17, 18, 19, 20, 21, 33, 36, 52, 54, 64, 65, 66, 67, 68, 69, 71}
 
 
 def _own(msgs, own_style):
